@@ -107,11 +107,23 @@ fn drain_indexes<I: Iterator, F: Fn(I::Item) -> Vec<usize>>(mut it: I, f: F) -> 
         }
         2 => drain_rest(it.skip(k), &f, &mut log),
         3 => drain_rest(it.step_by(k.max(1)), &f, &mut log),
-        4 => log.push(it.take(CAP + 1).count() as i64),
-        5 => match it.take(CAP + 1).last() {
-            Some(x) => log.extend(f(x).into_iter().map(|x| x as i64)),
-            None => log.push(END),
-        },
+        // count / last / fold are called on the iterator itself (an adaptor in between would consume it through
+        // try_fold / next and bypass an overridden method); an endless enumeration is caught as a hang
+        4 => {
+            for _ in 0..k {
+                it.next();
+            }
+            log.push(it.count() as i64)
+        }
+        5 => {
+            for _ in 0..k {
+                it.next();
+            }
+            match it.last() {
+                Some(x) => log.extend(f(x).into_iter().map(|x| x as i64)),
+                None => log.push(END),
+            }
+        }
         6 => {
             let (lo, hi) = it.size_hint();
             log.push(lo.min(1 << 40) as i64);
@@ -123,11 +135,30 @@ fn drain_indexes<I: Iterator, F: Fn(I::Item) -> Vec<usize>>(mut it: I, f: F) -> 
             for _ in 0..k {
                 it.next();
             }
-            let v = it.take(CAP + 1).fold(Vec::new(), |mut acc, x| {
-                acc.extend(f(x).into_iter().map(|x| x as i64));
+            let v = it.fold(Vec::new(), |mut acc, x| {
+                if acc.len() <= 4 * CAP {
+                    acc.extend(f(x).into_iter().map(|x| x as i64));
+                }
                 acc
             });
             log.extend(v)
+        }
+        8 => {
+            // k calls of next(), then reduce (= next + fold) keeping the lexicographically largest tuple,
+            // and the number of tuples seen
+            for _ in 0..k {
+                it.next();
+            }
+            let mut n = 0i64;
+            let r = it.map(|x| f(x)).reduce(|a, b| {
+                n += 1;
+                if b >= a { b } else { a }
+            });
+            match r {
+                Some(x) => log.extend(x.into_iter().map(|x| x as i64)),
+                None => log.push(END),
+            }
+            log.push(n)
         }
         _ => log.push(RUNAWAY),
     }
@@ -167,11 +198,21 @@ fn drain_vals<'a, I: Iterator<Item = &'a i64>>(it: I) -> Vec<i64> {
         }
         2 => rest(it.skip(k), &mut v),
         3 => rest(it.step_by(k.max(1)), &mut v),
-        4 => v.push(it.take(CAP + 1).count() as i64),
-        5 => match it.take(CAP + 1).last() {
-            Some(x) => v.push(*x),
-            None => v.push(END),
-        },
+        4 => {
+            for _ in 0..k {
+                it.next();
+            }
+            v.push(it.count() as i64)
+        }
+        5 => {
+            for _ in 0..k {
+                it.next();
+            }
+            match it.last() {
+                Some(x) => v.push(*x),
+                None => v.push(END),
+            }
+        }
         6 => {
             let (lo, hi) = it.size_hint();
             v.push(lo.min(1 << 40) as i64);
@@ -182,8 +223,10 @@ fn drain_vals<'a, I: Iterator<Item = &'a i64>>(it: I) -> Vec<i64> {
             for _ in 0..k {
                 it.next();
             }
-            v.extend(it.take(CAP + 1).fold(Vec::new(), |mut acc, x| {
-                acc.push(*x);
+            v.extend(it.fold(Vec::new(), |mut acc, x| {
+                if acc.len() <= 4 * CAP {
+                    acc.push(*x);
+                }
                 acc
             }))
         }
